@@ -365,7 +365,18 @@ def run_shard(col, k, nshards, tier, seed):
             c = {'dialect': x['dialect'], 'sql': x['sql'], 'origin': 'corpus'}
             for r in judge(c, col):
                 col.fail(r, c)
+    # trees of the production-pair sentences of the live grammars: every statement / expression form the parsers can
+    # build is walked at least once
+    from vf.gens import grammar
+    pstep = 6 if tier == 'quick' else 1
+    for d in corpus.DIALECTS:
+        for i, (_, toks) in enumerate(grammar.get(d).pair_sentences()):
+            if i % pstep == 0 and (i // pstep) % nshards == k:
+                c = {'dialect': d, 'sql': ' '.join(toks), 'origin': 'pairs'}
+                for r in judge(c, col):
+                    col.fail(r, c)
     if k == 0:
+        col.exhaustive_parts.append(('every 6th' if pstep > 1 else 'every') + ' accepted production-pair sentence of the three grammars')
         col.exhaustive_parts.append('all accepted corpus statements; within every judged tree: replacement of each '
                                     f'visited node (up to {MAXK} per tree)')
     hyp.explore(col, cases(tier), judge, N[tier], seed)
